@@ -456,6 +456,12 @@ func (g *declGen) object(fs []string, intField string, item *ItemModel) D {
 			}
 			js = cf("javascript", D{"const": src2}, D{"const": "s"}, D{"template": tn}, D{"const": "t"}, D{"template": tn})
 		}
+		if g.t.Chance("decl.collide.argedit.members", 1, 4) {
+			// ... or as two members of one object argument
+			tn2 := "tplarg2"
+			g.templates[tn2] = D{"object": D{"a": D{"array": []interface{}{D{"xpath": fs[0]}, D{"const": "z9"}}}, "b": D{"array": []interface{}{D{"xpath": fs[0]}, D{"const": "z9"}}}}}
+			js = cf("javascript", D{"const": "o.a.push('extra'); o.a.length + '/' + o.b.length"}, D{"const": "o"}, D{"template": tn2})
+		}
 		js["keep_empty_or_null"] = true
 		if g.t.Bool("decl.collide.argedit.order") {
 			obj["ka_out"], obj["kb_js"] = D{"template": tn}, js
